@@ -141,6 +141,7 @@ func Load(cfg LoadCfg) (*Ctx, error) {
 		return c, nil
 	}
 	seq := 0
+	expandedAny := false
 	var notes []string
 	notes = append(notes, detectIdentRenames(c)...)
 	recvAlias = map[string]string{}
@@ -226,6 +227,7 @@ func Load(cfg LoadCfg) (*Ctx, error) {
 			break
 		}
 		c = c2
+		expandedAny = true
 		c.IdentNow = identNow
 		setRenames(c, renamed)
 		if os.Getenv("FPCHECK_DUMP_OVERLAY") != "" {
@@ -239,7 +241,7 @@ func Load(cfg LoadCfg) (*Ctx, error) {
 	notes = append(notes, detectFieldRenames(c)...)
 	notes = append(notes, computeLitAliases(c)...)
 	c.InlineNotes = uniq(notes)
-	if seq > 0 {
+	if seq > 0 || expandedAny {
 		dropUnreferencedNewFuncs(c, known)
 	}
 	markNewFuncs(c, known)
